@@ -22,7 +22,7 @@ Section Top.
     intro Hok. unfold doc_ok in Hok. apply andb_true_iff in Hok as [Hconds Hroot].
     unfold run, exec_spec. change (root_type S (op_kind D)) with (s_root_type S (op_kind D)).
     destruct (s_root_type S (op_kind D)) as [rt|]; [|discriminate].
-    assert (Hcs : forallb (sel_conds_ok S) (op_sels D) = true).
+    assert (Hcs : forallb (sel_conds_ok S E) (op_sels D) = true).
     { unfold conds_ok in Hconds. apply andb_true_iff in Hconds as [H _]. exact H. }
     pose proof (sim_selections M S D E fuel Hmemo Hconds n
                                (children_of M S D E fuel W) (s_children_of S D E fuel W) rt (op_sels D) [] init_state
@@ -48,7 +48,7 @@ Section Top.
 End Top.
 
 (** ** the executor as it is (memo cache on, both repairs in) *)
-From ApiFu Require Import Exe.ExecHyps Exe.ExecCacheProofs.
+From ApiFu Require Import Exe.ExecHyps Exe.ExecDirProofs Exe.ExecCacheProofs.
 
 Section Fixed.
   Variables (S : schema) (D : document) (E : env) (fuel : nat).
@@ -56,8 +56,10 @@ Section Fixed.
   Hypothesis Hpos : doc_positions_okb D = true.
 
   (** stage 2: GroupedFieldSetCache never changes a response (no typing premise needed) *)
-  Theorem collect_cache_transparent W : run fixed S D E fuel W = run fixed_nomemo S D E fuel W.
+  Theorem collect_cache_transparent W :
+    dirs_evaluable D E = true -> run fixed S D E fuel W = run fixed_nomemo S D E fuel W.
   Proof.
+    intro Hev.
     destruct (doc_positions_okb_sound D Hpos) as [Hinj Hsmall].
     apply (run_memo_transparent fixed fixed_nomemo S D E fuel); try reflexivity; try assumption.
     apply type_names_okb_sound. exact Hnames.
@@ -72,7 +74,7 @@ Section Fixed.
       subseq errs (all_errors (exec_spec S D E fuel W)) /\
       Forall (explained errs) (failure_nulls (exec_spec S D E fuel W)).
   Proof.
-    rewrite collect_cache_transparent.
+    rewrite (collect_cache_transparent W (doc_ok_dirs_evaluable S D E fuel n Hdoc)).
     apply (run_refines_spec fixed_nomemo S D E fuel eq_refl eq_refl eq_refl n W Hdoc).
   Qed.
 
@@ -148,4 +150,36 @@ Theorem exec_data_finite_refuted_before_fix7 :
 Proof.
   exists w_schema, w_doc7, [], 2%nat, 2%nat, w_W7, (JObj [(w_Float, JFloat NaN)]), [].
   vm_compute. repeat split; reflexivity.
+Qed.
+
+(** ** the memo cache is NOT transparent when a directive cannot be evaluated: collectFields reports
+    the directive's error once per cache miss.  { l { a @include(if: $s) } }  with  l: [O]  of two
+    objects and no value for $s: one error with the cache, two without. *)
+Definition w_O : name := [79]%N.
+Definition w_l : name := [108]%N.
+Definition w_a : name := [97]%N.
+Definition w_s : name := [115]%N.
+Definition w_schema_l : schema :=
+  {| types := [(w_Int, NScalar KInt);
+               (w_Q, NObject [(w_l, StList (StNamed w_O))] []);
+               (w_O, NObject [(w_a, StNamed w_Int)] [])];
+     query := w_Q; mutation := None; subscription := None |}.
+Definition w_doc_l : document :=
+  {| op_kind := OpQuery; op_pos := {| line := 1; col := 1 |};
+     op_sels := [SField None w_l {| line := 1; col := 3 |} []
+                   [SField None w_a {| line := 1; col := 7 |}
+                      [DInclude (CVar w_s) {| line := 1; col := 9 |} {| line := 1; col := 22 |}] []]];
+     frags := [] |}.
+Definition w_W_l : outcome :=
+  OObj w_Q [(w_l, OList [OObj w_O [(w_a, OLeaf (GInt IInt 1))]; OObj w_O [(w_a, OLeaf (GInt IInt 1))]])].
+
+Theorem collect_cache_transparent_refuted_unevaluable :
+  exists S D E fuel W,
+    type_names_okb S = true /\ doc_positions_okb D = true /\ dirs_evaluable D E = false /\
+    exists d e, run fixed S D E fuel W = Done d [e] /\ run fixed_nomemo S D E fuel W = Done d [e; e].
+Proof.
+  exists w_schema_l, w_doc_l, [], 2%nat, w_W_l.
+  repeat split; try (vm_compute; reflexivity).
+  exists (Some (JObj [(w_l, JArr [JObj []; JObj []])])), {| e_path := []; e_locs := [{| line := 1; col := 9 |}] |}.
+  vm_compute. split; reflexivity.
 Qed.
